@@ -22,7 +22,10 @@ import (
 
 // envState is the environment of one execution: what the "network" has decided per request id.
 type envState struct {
-	decided map[string]string // id -> "respond" | "fail"
+	decided    map[string]string // id -> "respond" | "fail"
+	failFirst  map[string]bool   // the first attempt of this request fails at once (retry scenarios)
+	failedOnce map[string]bool
+	attempts   map[string]int
 }
 
 var curEnv *envState
@@ -36,6 +39,11 @@ type rt struct{}
 func (rt) RoundTrip(_ *fasthttp.HostClient, req *fasthttp.Request, resp *fasthttp.Response) (bool, error) {
 	id := string(req.Header.Peek("X-Id"))
 	env := curEnv
+	env.attempts[id]++
+	if env.failFirst[id] && !env.failedOnce[id] {
+		env.failedOnce[id] = true
+		return false, errInjected
+	}
 	verifrt.Point("rt.wait:"+id, env, func() bool { return env.decided[id] != "" })
 	if env.decided[id] == "fail" {
 		return false, errInjected
@@ -60,6 +68,8 @@ type hreq struct {
 	Timeout string
 	// Via tells how the request-level settings are given: "" = setters on a Request, "config" = client.Get(url, Config{...})
 	Via string
+	// FailFirst: the first transport attempt of this request fails at once; a retrying client tries again
+	FailFirst bool
 	// Late: the network decides the fate of this request only after its caller has got an answer (a server slower
 	// than the timeout); only meaningful when the effective timeout is tiny.
 	Late bool
@@ -70,6 +80,8 @@ type hparams struct {
 	Callers [][]hreq
 	// ClientTimeout is the client-level timeout ("" | "tiny" | "huge")
 	ClientTimeout string
+	// Retry: the client has a retry configuration (3 attempts, back-off capped at 1ns so that no real time passes)
+	Retry bool
 }
 
 func timeoutValue(s string) time.Duration {
@@ -116,7 +128,12 @@ type hobs struct {
 
 func runHandoff(p hparams) func(e *schedx.Exec) *schedx.Outcome {
 	return func(e *schedx.Exec) *schedx.Outcome {
-		env := &envState{decided: map[string]string{}}
+		env := &envState{decided: map[string]string{}, failFirst: map[string]bool{}, failedOnce: map[string]bool{}, attempts: map[string]int{}}
+		for _, c := range p.Callers {
+			for _, rq := range c {
+				env.failFirst[rq.ID] = rq.FailFirst
+			}
+		}
 		curEnv = env
 		var obs []hobs
 		cancelled := map[string]bool{}
@@ -126,6 +143,9 @@ func runHandoff(p hparams) func(e *schedx.Exec) *schedx.Outcome {
 			cl := client.NewWithClient(fh)
 			if d := timeoutValue(p.ClientTimeout); d > 0 {
 				cl.SetTimeout(d)
+			}
+			if p.Retry {
+				cl.SetRetryConfig(&client.RetryConfig{InitialInterval: time.Nanosecond, MaxBackoffTime: time.Nanosecond, Multiplier: 1, MaxRetryCount: 3})
 			}
 			cancels := map[string]context.CancelFunc{}
 			ctxs := map[string]context.Context{}
@@ -269,7 +289,10 @@ func runHandoff(p hparams) func(e *schedx.Exec) *schedx.Outcome {
 					viol("timeout-error-without-cancel", "ErrTimeoutOrCancel although the request was never cancelled and has no timeout that could have expired", o, nil)
 				}
 			case o.Err == errInjected.Error():
-				if !rq.Fail {
+				switch {
+				case rq.FailFirst && p.Retry && !rq.Fail:
+					viol("retry-gave-up-after-first-failure", "the first attempt failed, the client is configured to retry and the second attempt would have been answered, but the caller got the transport error", o, nil)
+				case !rq.Fail && !rq.FailFirst:
 					viol("foreign-transport-error", "a transport error of another request was returned", o, nil)
 				}
 			default:
@@ -352,6 +375,10 @@ func handoffScenarios() []schedx.Scenario {
 		add(n+"client-level-late-then-request-level-huge", hparams{ClientTimeout: "tiny", Callers: [][]hreq{{{ID: "r1", Via: via, Late: true}, {ID: "r2", Timeout: "huge", Via: via}}}}, b2, b3, false)
 		add(n+"request-level-tiny-over-client-level-huge", hparams{ClientTimeout: "huge", Callers: [][]hreq{{{ID: "r1", Timeout: "tiny", Via: via, Late: true}, {ID: "r2", Via: via}}}}, b2, b3, false)
 	}
+	// a retrying client: the first attempt fails at once, the second is answered / cancelled / failed for good
+	add("retry-first-attempt-fails-then-next", hparams{Retry: true, Callers: [][]hreq{{{ID: "r1", FailFirst: true}, {ID: "r2"}}}}, b2, b3, false)
+	add("retry-cancelled-while-retrying-then-next", hparams{Retry: true, Callers: [][]hreq{{{ID: "r1", FailFirst: true, Cancel: true}, {ID: "r2"}}}}, b2, b3, false)
+	add("retry-every-attempt-fails-then-next", hparams{Retry: true, Callers: [][]hreq{{{ID: "r1", FailFirst: true, Fail: true}, {ID: "r2", FailFirst: true}}}}, b1, b2, false)
 	add("timeout-two-callers-one-timing-out", hparams{ClientTimeout: "tiny", Callers: [][]hreq{{{ID: "r1", Late: true}}, {{ID: "r2", Timeout: "huge"}}}}, b1, b2, false)
 	return out
 }
